@@ -15,7 +15,7 @@ import vf
 PROP = "C03"
 MC_BODY = "INIT Init\nNEXT Next\nVIEW View\nINVARIANT SuccessMeansComplete\nINVARIANT NoBadBlobLeft\nINVARIANT NeverDangling\nINVARIANT RetryCanSucceed\nCHECK_DEADLOCK FALSE\n"
 GEN_BODY = "INIT Init\nNEXT Next\nCONSTRAINT Emit\nCHECK_DEADLOCK FALSE\n"
-ASIS = {"VerifyStopsAtFirst": "FALSE", "VerifyOnFailure": "FALSE"}
+ASIS = {"VerifyStopsAtFirst": "FALSE", "VerifyOnFailure": "FALSE", "DupOverwritesSkipVerify": "FALSE"}
 
 
 def known_pull_finding(recs_of_script, findings):
@@ -53,10 +53,10 @@ def run(tier="quick", seed=1, replay=None):
         if replay:
             scripts = [json.loads(l) for l in open(replay) if l.strip()]
         else:
-            for pre in ("none", "old"):
+            for pre in ("none", "old", "dup"):
                 # the repaired design (every downloaded blob is verified, also when the attempt fails early) satisfies the invariants
                 cfg = vf.write_cfg(wd, f"MC_Pull_{pre}.cfg", {"MaxAttempts": 2 if quick else 3, "MaxFaults": 2, "Pre": f'"{pre}"',
-                                                              "VerifyStopsAtFirst": "FALSE", "VerifyOnFailure": "TRUE"}, MC_BODY)
+                                                              "VerifyStopsAtFirst": "FALSE", "VerifyOnFailure": "TRUE", "DupOverwritesSkipVerify": "FALSE"}, MC_BODY)
                 r = vf.tlc("Pull", cfg, wd, timeout=3000)
                 vf.tlc_must_pass(r, f"Pull.tla invariants (repaired design, pre={pre})")
                 cov["states"] += r["distinct"]
@@ -83,12 +83,12 @@ def run(tier="quick", seed=1, replay=None):
             scripts = []
             for i, h in enumerate(pick):
                 atts = [sorted(a, key=lambda x: (x["slot"], x["b"])) for a in h] + [[]]     # + a fault-free retry
-                scripts.append(dict(t=i + 1, pre="old" if i % 4 == 3 else "none", attempts=atts))
+                scripts.append(dict(t=i + 1, pre="old" if i % 4 == 3 else ("dup" if i % 4 == 1 else "none"), attempts=atts))
             scripts += vf.load_witnesses(PROP)
             cov["bounds"] = f"{len(singles)} single-fault attempts exhaustively, {len(pick) - len(singles)} two-attempt scripts with <= 2 faults each sampled; every script ends with a fault-free attempt"
         recs, v, _ = vf.replay_and_validate(wd, scripts, "./server", "TestVFPullReplay", ["server"], "Trace_Pull",
                                             go_timeout=5400, tlc_timeout=3000,
-                                            trace_constants="CONSTANTS VerifyStopsAtFirst = FALSE VerifyOnFailure = FALSE\n")
+                                            trace_constants="CONSTANTS VerifyStopsAtFirst = FALSE VerifyOnFailure = FALSE DupOverwritesSkipVerify = FALSE\n")
         findings = {f["id"]: f for f in vf.load_findings(PROP)}
         recs_by_t = {}
         for r in recs:
